@@ -25,6 +25,8 @@ if __name__ == "__main__":
     m = json.load(open(os.path.join(V, "MANIFEST.json")))
     props = [c["property_id"] for c in m["checks"]]
     for patch in sys.argv[1:]:
+        if not os.path.exists(patch):
+            print(patch, "missing"); continue
         res = run(patch, props)
         if "error" in res:
             print(patch, res["error"]); continue
